@@ -255,6 +255,21 @@ def run_task(task):
     if models.check_honest_against_lp(lp):
         raise HarnessError("translator validation failed (honest answer violates translated LP)")
     is_int = inner.weight_type is int
+    # legal tolerance answers: integer columns of HiGHS's answer moved by 1e-11 must decode to the same explanation
+    if lp.honest_vals is not None and is_int:
+        for direction in (-1, +1):
+            tv = [(round(v) + direction * 1e-11 if (lp.is_int[j] and (direction > 0 or round(v) >= 1)) else v) for j, v in enumerate(lp.honest_vals)]
+            res["obligations"] += 1
+            res["extra"]["traces_validated_against_impl"] = res["extra"].get("traces_validated_against_impl", 0) + 1
+            try:
+                pr = _inner_explanation_problems(task, m, inner, c01._inject_and_decode(inner, tv))
+            except Exception as e:
+                pr = [f"decode raised {type(e).__name__}: {e}"]
+            if pr:
+                res["violations"].append({"signature": f"{cls}:tolerance-answer:{_cls(pr)}", "summary": f"{task['name']}: integer columns at v{'-' if direction < 0 else '+'}1e-11: {pr[0]}",
+                                          "replay": {"kind": "inject", "task": task, "values": [repr(v) for v in tv]}})
+            else:
+                res["discharged"] += 1
     cols = models.edge_cols(inner)
     wcols = models.weight_cols(inner)
     if wcols is None and getattr(inner, "solution_weights_superset", None) is None:
@@ -377,7 +392,7 @@ def replay(data):
         return bool(pr)
     inner = c01._inner(task, m)
     lp = snaps[-1]
-    vals = [float(Fr(v)) for v in data["values"]]
+    vals = [float(Fr(v)) if "/" in v else float(v) for v in data["values"]]
     if lp.violations(vals, max(1e-9, lp.tol) * 4):
         print("  replay: injected answer is not feasible for the current LP")
         return False
